@@ -5,11 +5,12 @@
 (* and the expected verdict of every entry (replayed on the real code).        *)
 EXTENDS SignedSegment, Json
 
-CONSTANTS MAXN, DEPTH, BITS, GEN
+CONSTANTS MAXN, DEPTH, BITS, GEN,
+          VARIANTS   \* subset of {0, 1}: 1 = honest segment whose last entry equals the first AS entry
 
-VARIABLES n0, seg, res, h, d
+VARIABLES n0, v, seg, res, h, d
 
-vars == <<n0, seg, res, h, d>>
+vars == <<n0, v, seg, res, h, d>>
 
 MAXLEN == MAXN + 2
 
@@ -31,30 +32,31 @@ Tampers(L, n) ==
 ASSUME \A L \in 0..MAXLEN : \A n \in 1..MAXN : \A t \in Tampers(L, n) : Applicable(t, L, n, MAXLEN)
 
 MCInit == /\ n0 \in 1..MAXN
-          /\ seg = Base(n0)
+          /\ v \in VARIANTS /\ (v = 1 => n0 >= 3)
+          /\ seg = BaseV(n0, v)
           /\ res = HonestResolve(n0)
           /\ h = <<>>
           /\ d = 0
 
 MCNext == /\ d < DEPTH
           /\ \E t \in Tampers(Len(seg.es), n0) :
-               LET r == Apply(t, seg, res, n0) IN
+               LET r == Apply(t, seg, res, n0, v) IN
                /\ seg' = r.seg /\ res' = r.res
                /\ h' = Append(h, t)
           /\ d' = d + 1
-          /\ UNCHANGED n0
+          /\ UNCHANGED <<n0, v>>
 
 MCSpec == MCInit /\ [][MCNext]_vars
 
 \* the history and the depth are not part of the state identity for generation
-MCView == <<n0, seg, res, IF GEN THEN 0 ELSE d>>
+MCView == <<n0, v, seg, res, IF GEN THEN 0 ELSE d>>
 
 Sound          == VerdictsAgree(seg, res)
-OnlyAuthentic  == AcceptedOnlyIfAuthentic(seg, res, n0)
-AuthenticOk    == AuthenticAccepted(seg, res, n0)
+OnlyAuthentic  == AcceptedOnlyIfAuthentic(seg, res, n0, v)
+AuthenticOk    == AuthenticAccepted(seg, res, n0, v)
 PrefixClosed   == ValidIsPrefixClosed(seg, res, n0)
 
 Expect == [i \in Positions(seg) |-> [v |-> Valid(seg, res, i), o |-> ImplOutcome(seg, res, i)]]
 
-Emit == GEN => PrintT(<<"REPLAY", ToJson([n |-> n0, h |-> h, e |-> Expect])>>)
+Emit == GEN => PrintT(<<"REPLAY", ToJson([n |-> n0, v |-> v, h |-> h, e |-> Expect])>>)
 =============================================================================
